@@ -751,6 +751,7 @@ RULES = [
     ("C02.locks", rule_locks),
     ("C02.self", rule_self),
     ("C02.kind", rule_kind),
+    ("C02.sigmask", lambda c, r: pat.shared(__import__("sa.rules.c19", fromlist=["x"]).rule_bp, "C02.sigmask", lambda x: "restore-after-unlock" in x["instance"] or x["status"] != "pass")(c, r)),   # bp: a signal delivered while synchronize_rcu still owns rcu_registry_lock / rcu_gp_lock registers its thread from the handler and blocks on the lock its own frame holds - the grace period never completes
     ("C02.lockorder", rule_lockorder),
     ("C02.enosys", rule_compat),
     ("C02.leader", rule_leader),
